@@ -84,6 +84,24 @@ Definition basis (f : func) (k : nat) (x : Q) : Q :=
 (* the column of the m basis functions at one abscissa *)
 Definition basis_row (f : func) (m : nat) (x : Q) : vec := map (fun k => basis f k x) (seq 0 m).
 
+(* names -> functions: func_fit's function_map and TraceSet._func_map as written in the source *)
+Definition to_gfunc (f : func) : gfunc :=
+  match f with Legendre => GLegendre | Chebyshev => GChebyshev | Poly => GPoly | ChebSplit => GChebSplit end.
+Definition of_gfunc (g : gfunc) : func :=
+  match g with GLegendre => Legendre | GChebyshev => Chebyshev | GPoly => Poly | GChebSplit => ChebSplit end.
+Definition fit_func (name : func) : func := of_gfunc (g_function_map (to_gfunc name)).
+Definition xy_func (name : func) : option func := option_map of_gfunc (g_xy_func_map (to_gfunc name)).
+
+(* the order guards: `if m < K: raise ValueError` *)
+Definition min_order (f : func) : nat :=
+  match f with Legendre => g_leg_min_order | Chebyshev => g_cheb_min_order | Poly => g_poly_min_order
+             | ChebSplit => g_split_min_order end.
+(* a call f(xs, m): None = ValueError *)
+Definition basis_call (f : func) (m : nat) (xs : list Q) : option (list (list Q)) :=
+  if Nat.ltb m (min_order f) then None else Some (map (fun k => map (basis f k) xs) (seq 0 m)).
+(* S: the documented minimum orders *)
+Definition min_order_spec (f : func) : nat := match f with ChebSplit => 2%nat | _ => 1%nat end.
+
 (* ================================================================== S : textbook closed forms *)
 Definition zfact (n : nat) : Z := fold_left Z.mul (map Z.of_nat (seq 1 n)) 1%Z.
 Definition binom (n k : nat) : Z := if Nat.leb k n then (zfact n / (zfact k * zfact (n - k)))%Z else 0%Z.
@@ -227,7 +245,7 @@ Definition func_fit (f : func) (x y w : vec) (ncoeff : nat) (ia : list bool) (an
     let y0 := hd 0 (map fst good) in Some (y0 :: zeros (ncoeff - 1), repeat y0 n)
   else
     let ncfit := g_ncfit ngood ncoeff in
-    let rows := scale_rows_gen ifunc (map (basis_row f ncfit) x) in
+    let rows := scale_rows_gen ifunc (map (basis_row (fit_func f) ncfit) x) in
     let has_fixed := existsb g_fixed (firstn ncfit ia) in
     if has_fixed && negb (Nat.eqb (length ans) ncoeff && Nat.eqb ncfit ncoeff) then None
     else
@@ -294,12 +312,68 @@ Definition ts_fit (f : func) (ncoeff : nat) (oxmin oxmax : option Q) (j : option
                        ts_coeff := map fst l |}, map snd l)
   end.
 
-(* TraceSet._func_map has no chebyshev_split entry *)
-Definition xy_supported (f : func) : bool := match f with ChebSplit => false | _ => true end.
+(* ---- TraceSet.__init__ as the source writes it: keyword defaults, tempivar = invvar * inmask, and the rejection loop
+   `while (not qdone) and (iIter <= maxiter)` around func_fit / djs_reject.  The translator verifies that djs_reject is
+   called WITHOUT any rejection criterion (no lower / upper / maxdev / maxrej / grow / inmask / sticky): on that path
+   djs_reject computes badness = 0 everywhere, returns an all-True mask and qdone = (all-True == default outmask) = True. *)
+Definition reject_nocrit (y yfit w : vec) : list bool * bool := (repeat true (length y), true).
+
+Definition extremum_of (e : extremum) (A : mat) : Q := match e with ExtMin => mat_min A | ExtMax => mat_max A end.
+Definition tempivar_gen (iv : vec) (m : list bool) : vec := map2 (fun v (b : bool) => g_tempivar v (b01 b)) iv m.
+
+(* None = an exception (func_fit raised, or the loop body never ran and `ycurfit` is unbound) *)
+Fixpoint fit_loop (fuel : nat) (fit : vec -> option (vec * vec)) (y tempivar : vec) (maxiter iiter : Z) (qdone : bool)
+         (mask : list bool) (cur : option (vec * vec)) : option (vec * vec * list bool) :=
+  if g_loop_continue qdone iiter maxiter then
+    match fuel with
+    | O => None
+    | S fuel' =>
+        let wts := match g_fit_weight with
+                   | WTempivar => tempivar
+                   | WMasked => map2 (fun v (b : bool) => v * b01 b) tempivar mask
+                   end in
+        match fit wts with
+        | None => None
+        | Some ry =>
+            let '(mask', qd) := reject_nocrit y (snd ry) tempivar in
+            fit_loop fuel' fit y tempivar maxiter (iiter + g_iiter_step) qd mask' (Some ry)
+        end
+    end
+  else match cur with Some ry => Some (fst ry, snd ry, mask) | None => None end.
+
+Definition spec_default_func : func := Legendre.
+Definition spec_default_ncoeff : nat := 3.
+
+(* TraceSet(xpos, ypos, func=, ncoeff=, maxiter=, xmin=, xmax=, xjump*=, invvar=, inmask=) -> (trace set, yfit, outmask) *)
+Definition ts_fit_src (ofunc : option func) (oncoeff : option nat) (omaxiter : option Z) (oxmin oxmax : option Q)
+           (j : option jump) (xpos ypos : mat) (oivar : option mat) (oinmask : option (list (list bool)))
+  : option (traceset * mat * list (list bool)) :=
+  let f := match ofunc with Some f => f | None => of_gfunc g_default_func end in
+  let ncoeff := match oncoeff with Some n => n | None => g_default_ncoeff end in
+  let maxiter := match omaxiter with Some n => n | None => g_default_maxiter end in
+  let ivar := match oivar with Some v => v | None => map (map (fun _ => g_default_invvar)) xpos end in
+  let inmask := match oinmask with Some v => v | None => map (map (fun _ => g_default_inmask)) xpos end in
+  let xmin := match oxmin with Some v => v | None => extremum_of g_xmin_default xpos end in
+  let xmax := match oxmax with Some v => v | None => extremum_of g_xmax_default xpos end in
+  let fits := map (fun t => let '(xr, yr, wr, mr) := t in
+                            let tempivar := tempivar_gen wr mr in
+                            fit_loop (Z.to_nat (maxiter + 2))
+                                     (fun wts => func_fit f (map (xnorm xmin xmax (fit_jump j)) xr) yr wts ncoeff (all_true ncoeff) [] None)
+                                     yr tempivar maxiter g_iiter0 g_qdone0 (map g_good tempivar) None)
+                  (combine (combine (combine xpos ypos) ivar) inmask) in
+  match opt_all fits with
+  | None => None
+  | Some l => Some ({| ts_func := f; ts_ncoeff := ncoeff; ts_xmin := xmin; ts_xmax := xmax; ts_jump := j;
+                       ts_coeff := map (fun r => fst (fst r)) l |}, map (fun r => snd (fst r)) l, map snd l)
+  end.
+
+(* TraceSet._func_map (from the source) has no chebyshev_split entry: KeyError *)
+Definition xy_supported (f : func) : bool := is_some (xy_func f).
 
 Definition ts_eval_row (t : traceset) (ignore_jump : bool) (xr c : vec) : vec :=
   let j := xy_jump (ts_jump t) ignore_jump in
-  map (fun x => dot (basis_row (ts_func t) (ts_ncoeff t) (xnorm (ts_xmin t) (ts_xmax t) j x)) c) xr.
+  let f := match xy_func (ts_func t) with Some g => g | None => ts_func t end in
+  map (fun x => dot (basis_row f (ts_ncoeff t) (xnorm (ts_xmin t) (ts_xmax t) j x)) c) xr.
 
 Definition ts_nx_spec (t : traceset) : nat := Z.to_nat (Qfloor (ts_xmax t - ts_xmin t + 1)).
 Definition ts_nx (t : traceset) : nat := g_nx (g_xrange (ts_xmin t) (ts_xmax t)).
@@ -359,23 +433,37 @@ Definition fres := option (vec * vec).
 
 Inductive case :=
   (* impl[k][i] = value of basis function k at xs[i]; scalar calls are encoded as one-element xs *)
-| CBasis (f : func) (m : nat) (xs : vec) (impl : mat)
+  (* impl = None : the call raised ValueError *)
+| CBasis (f : func) (m : nat) (xs : vec) (impl : option mat)
 | CFit (f : func) (x y w : vec) (ncoeff : nat) (ia : list bool) (ans : vec) (ifunc : option vec) (impl : fres)
   (* TraceSet(xpos, ypos, ...) ; impl = coeff, yfit, y of xy(xpos), (x, y) of xy(None) *)
-| CTrace (f : func) (ncoeff : nat) (oxmin oxmax : option Q) (j : option jump)
-         (xpos ypos ivar : mat) (inmask : list (list bool))
-         (icoeff iyfit ixy_x ixy_y igrid_x igrid_y : mat)
+  (* absent keywords are None: func, ncoeff, maxiter, xmin, xmax, invvar, inmask *)
+| CTrace (ofunc : option func) (oncoeff : option nat) (omaxiter : option Z) (oxmin oxmax : option Q) (j : option jump)
+         (xpos ypos : mat) (oivar : option mat) (oinmask : option (list (list bool)))
+         (icoeff iyfit ixy_x ixy_y igrid_x igrid_y : mat) (ioutmask : list (list bool))
   (* TraceSet(FITS_rec).xy(xpos or None, ignore_jump) *)
 | CEval (t : traceset) (oxpos : option mat) (ignore_jump : bool) (ix iy : mat).
 
 Definition b2z (bit : Z) (ok : bool) : Z := if ok then 0%Z else bit.
+Fixpoint bvec_eqb (u v : list bool) : bool :=
+  match u, v with [], [] => true | a :: u', b :: v' => Bool.eqb a b && bvec_eqb u' v' | _, _ => false end.
+Fixpoint bmat_eqb (A B : list (list bool)) : bool :=
+  match A, B with [], [] => true | a :: A', b :: B' => bvec_eqb a b && bmat_eqb A' B' | _, _ => false end.
 
 Definition run_case (c : case) : Z :=
   match c with
   | CBasis f m xs impl =>
-      let mM := map (fun k => map (basis f k) xs) (seq 0 m) in
       let mS := map (fun k => map (basis_spec f k) xs) (seq 0 m) in
-      (b2z 1 (mclose (qclose tol9) impl mM) + b2z 2 (mclose (qclose tol9) impl mS))%Z
+      let agree := match basis_call f m xs, impl with
+                   | None, None => true
+                   | Some mM, Some im => mclose (qclose tol9) im mM
+                   | _, _ => false
+                   end in
+      let spec := match impl with
+                  | Some im => Nat.leb (min_order_spec f) m && mclose (qclose tol9) im mS
+                  | None => Nat.ltb m (min_order_spec f)
+                  end in
+      (b2z 1 agree + b2z 2 spec)%Z
   | CFit f x y w ncoeff ia ans ifunc impl =>
       let m := func_fit f x y w ncoeff ia ans ifunc in
       let agree := match m, impl with
@@ -388,15 +476,21 @@ Definition run_case (c : case) : Z :=
                   | None => true   (* an exception is judged by the model only *)
                   end in
       (b2z 1 agree + b2z 2 spec)%Z
-  | CTrace f ncoeff oxmin oxmax j xpos ypos ivar inmask icoeff iyfit ixy_x ixy_y igrid_x igrid_y =>
+  | CTrace ofunc oncoeff omaxiter oxmin oxmax j xpos ypos oivar oinmask icoeff iyfit ixy_x ixy_y igrid_x igrid_y ioutmask =>
+      (* S side: the documented defaults *)
+      let f := match ofunc with Some f => f | None => spec_default_func end in
+      let ncoeff := match oncoeff with Some n => n | None => spec_default_ncoeff end in
+      let ivar := match oivar with Some v => v | None => map (map (fun _ => 1)) xpos end in
+      let inmask := match oinmask with Some v => v | None => map (map (fun _ => true)) xpos end in
       let xmin := match oxmin with Some v => v | None => mat_min xpos end in
       let xmax := match oxmax with Some v => v | None => mat_max xpos end in
       let ti := {| ts_func := f; ts_ncoeff := ncoeff; ts_xmin := xmin; ts_xmax := xmax; ts_jump := j; ts_coeff := icoeff |} in
       let agree :=
-        match ts_fit f ncoeff oxmin oxmax j xpos ypos ivar inmask with
+        match ts_fit_src ofunc oncoeff omaxiter oxmin oxmax j xpos ypos oivar oinmask with
         | None => false
-        | Some (t, yfit) =>
+        | Some (t, yfit, om) =>
             mclose (qclose_rel tol7) icoeff (ts_coeff t) && mclose (qclose_rel tol7) iyfit yfit
+            && bmat_eqb om ioutmask
             && match ts_xy t (Some xpos) false with
                | Some (mx, my) => meq_bool ixy_x mx && mclose (qclose_rel tol7) ixy_y my
                | None => false
